@@ -29,7 +29,15 @@ from . import common
 
 import warnings
 
-warnings.filterwarnings("ignore", message=".*multi-threaded, use of fork.*", category=DeprecationWarning)
+
+
+def _quiet_fork_warning() -> None:
+    # ariadne_codegen.config calls simplefilter("default", DeprecationWarning) at import time, which
+    # re-enables the (harmless here) "multi-threaded, use of fork()" warning: re-install the filter before forking
+    warnings.filterwarnings("ignore", message=".*multi-threaded, use of fork.*", category=DeprecationWarning)
+
+
+_quiet_fork_warning()
 
 _CTX = mp.get_context("fork")
 SCRATCH_PREFIX = "ariadne-verif-"
@@ -65,6 +73,7 @@ def _child(conn: Any, fn: Callable[..., Any], args: tuple) -> None:
 
 def forked(fn: Callable[..., Any], *args: Any, timeout: float = 120.0) -> Tuple[str, Any]:
     """Run fn(*args) in a forked child; returns ("ok", value) | ("exc", (cls, msg, tb)) | ("timeout", None)."""
+    _quiet_fork_warning()
     parent, child = _CTX.Pipe(duplex=False)
     p = _CTX.Process(target=_child, args=(child, fn, args))
     p.start()
@@ -99,6 +108,7 @@ def pmap_forked(fn: Callable[..., Any], arg_list: List[tuple], procs: Optional[i
     n = len(arg_list)
     if n == 0:
         return []
+    _quiet_fork_warning()
     procs = min(procs or int(os.environ.get("VERIF_PROCS", "14")), n)
     task_q: Any = _CTX.Queue()
     res_q: Any = _CTX.Queue()
